@@ -54,6 +54,12 @@ theorem idcStarO_step (hk : SubsetOrder kordf) (hord : PermOrder ordf) (hG : G.W
     (hbl : ∀ e ∈ G.bi, e.1 ≠ e.2) (O C : Event) (hinv : IdcInv G O C) :
     (∀ fuel, (idcStarO ordf dordf kordf G (fuel + 1) O C).isSome = true) ∨
     ∃ O' C', IdcInv G O' C' ∧ IdcLess O' C' O C ∧
+      (∃ cf nev c val, makeCounterfactualGraph ordf G (Event.ofList (O ++ C)) = .ok (cf, some nev) ∧
+        firstExchangeable cf (newOutcomesAndConditions kordf nev O C).fst.keys
+          (newOutcomesAndConditions kordf nev O C).snd.keys = .ok (some c) ∧
+        (newOutcomesAndConditions kordf nev O C).snd.get? c = some val ∧
+        exchangeOutcomes cf (newOutcomesAndConditions kordf nev O C).fst c val = .ok O' ∧
+        C' = (newOutcomesAndConditions kordf nev O C).snd.filter (fun p => p.1 ≠ c)) ∧
       ∀ fuel, idcStarO ordf dordf kordf G (fuel + 1) O C = idcStarO ordf dordf kordf G fuel O' C' := by
   cases h1 : line1 (idStar ordf dordf G C) with
   | error err => left; intro fuel; unfold idcStarO; rw [h1]; rfl
@@ -86,7 +92,8 @@ theorem idcStarO_step (hk : SubsetOrder kordf) (hord : PermOrder ordf) (hG : G.W
                 set nc := (newOutcomesAndConditions kordf nev O C).snd with hnc
                 refine ⟨no', nc.filter (fun p => p.1 ≠ c), ?_, ?_, ?_⟩
                 rotate_left 2
-                · intro fuel
+                · refine ⟨⟨cf, nev, c, val, rfl, hf, hg, hx, rfl⟩, ?_⟩
+                  intro fuel
                   conv_lhs => rw [idcStarO]
                   rw [h1]; simp only; rw [hcg]; simp only; rw [hf]; simp only; rw [hg]; simp only; rw [hx]
                 all_goals
@@ -319,7 +326,7 @@ theorem idcStarO_terminates (hk : SubsetOrder kordf) (hord : PermOrder ordf) (hG
     induction f using Nat.strong_induction_on with
     | _ f ihf =>
       intro O C hinv ha hf
-      rcases idcStarO_step ordf dordf kordf G hk hord hG hdl hbl O C hinv with hdone | ⟨O', C', hinv', hless, hrec⟩
+      rcases idcStarO_step ordf dordf kordf G hk hord hG hdl hbl O C hinv with hdone | ⟨O', C', hinv', hless, _, hrec⟩
       · exact ⟨1, hdone 0⟩
       · have hN : ∃ N, (idcStarO ordf dordf kordf G N O' C').isSome = true := by
           rcases hless with hlt | ⟨heq, hlt⟩
